@@ -3,6 +3,7 @@ package main
 import (
 	"context"
 	"errors"
+	"fmt"
 	"io"
 	"log/slog"
 	"os"
@@ -116,7 +117,8 @@ type rwHarness struct {
 	timer   chan time.Time
 	armed   chan struct{}
 	prefill bool
-	outcome bool // what the next Refresh returns
+	outcome bool  // whether the next Refresh returns an error
+	lastErr error // ... and which one
 	gate    chan struct{}
 	entered chan struct{}
 	ctxs    []context.Context
@@ -124,6 +126,10 @@ type rwHarness struct {
 }
 
 var errRefresh = errors.New("refresh error")
+
+// refreshErrs: what a Refresher may return: the plain error and context errors, bare and
+// wrapped (an error handler must see every one of them; script digit 1..4 selects)
+var refreshErrs = []error{nil, errRefresh, context.Canceled, fmt.Errorf("refreshing: %w", context.Canceled), context.DeadlineExceeded}
 
 func (h *rwHarness) rec(s string) { h.mu.Lock(); h.trace = append(h.trace, s); h.mu.Unlock() }
 
@@ -182,7 +188,10 @@ func (h *rwHarness) Refresh(ctx context.Context) error {
 		<-gate
 	}
 	if out {
-		return errRefresh
+		h.mu.Lock()
+		e := h.lastErr
+		h.mu.Unlock()
+		return e
 	}
 	return nil
 }
@@ -192,10 +201,24 @@ func (h *rwHarness) Handle(ctx context.Context, err error) {
 	if p, _ := ctx.Value(ctxKey("parent")).(string); p != "s" || ctx.Value(ctxKey("cons")) != nil {
 		s += "!ctx"
 	}
-	if err != errRefresh {
+	h.mu.Lock()
+	want := h.lastErr
+	h.mu.Unlock()
+	if err != want {
 		s += "!err"
 	}
 	h.rec(s)
+}
+
+// setOutcome: script digit 0 = nil, 1..4 = refreshErrs[digit]; the caller holds h.mu
+func (h *rwHarness) setOutcome(d byte) {
+	k := int(d - '0')
+	h.outcome = k != 0
+	if k > 0 && k < len(refreshErrs) {
+		h.lastErr = refreshErrs[k]
+	} else {
+		h.lastErr = errRefresh
+	}
 }
 
 func (h *rwHarness) waitArmed() bool {
@@ -223,15 +246,15 @@ func execRW(args []string) string {
 		return "STUCK-at-start"
 	}
 	shut := false
-	doShutdown := func(e bool) {
+	doShutdown := func(e byte) {
 		h.mu.Lock()
-		h.outcome = e
+		h.setOutcome(e)
 		h.mu.Unlock()
 		err := w.Shutdown(shutCtx)
 		r := "Ret:0"
 		if err != nil {
 			r = "Ret:1"
-			if !errors.Is(err, errRefresh) || !strings.HasPrefix(err.Error(), "refresh on shutdown: ") {
+			if !errors.Is(err, h.lastErr) || !strings.HasPrefix(err.Error(), "refresh on shutdown: ") {
 				r += "!wrap"
 			}
 		}
@@ -242,7 +265,7 @@ func execRW(args []string) string {
 		switch ev[0] {
 		case 't':
 			h.mu.Lock()
-			h.outcome = ev[1] == '1'
+			h.setOutcome(ev[1])
 			ch := h.timer
 			h.mu.Unlock()
 			select {
@@ -257,7 +280,7 @@ func execRW(args []string) string {
 			if shut {
 				return "SCRIPT-ERROR-double-shutdown"
 			}
-			doShutdown(ev[1] == '1')
+			doShutdown(ev[1])
 		case 'x':
 			// Shutdown while a Refresh started by a tick is running; the next timer is already ready
 			if shut {
@@ -275,10 +298,10 @@ func execRW(args []string) string {
 				return "STUCK-race-tick"
 			}
 			<-h.entered
-			doShutdown(ev[1] == '1')
+			doShutdown(ev[1])
 			h.mu.Lock()
 			h.prefill = true
-			h.outcome = ev[2] == '1'
+			h.setOutcome(ev[2])
 			h.mu.Unlock()
 			close(gate)
 			if !h.waitArmed() {
@@ -351,7 +374,7 @@ func genC18(g *G) {
 	g.Emit("sig", "h", "nn")
 	g.Emit("sig", "-", "n")
 	// refresh scripts
-	evs := []string{"t0", "t1", "t0", "t1", "s0", "s1"}
+	evs := []string{"t0", "t1", "t0", "t1", "s0", "s1", "t2", "t3", "t4", "s2", "s3"}
 	for i := 0; i < g.N(1500, 40000); i++ {
 		n := g.Rnd.IntN(8)
 		var script []string
@@ -378,7 +401,7 @@ func genC18(g *G) {
 		}
 		g.Emit("rw", I(g.Rnd.IntN(2)), strings.Join(durs, ","), strings.Join(script, ","))
 	}
-	for _, sc := range []string{"", "s0", "s1", "t0", "t1,t1,t0", "t0,s1,t0", "t1,s0"} {
+	for _, sc := range []string{"", "s0", "s1", "t0", "t1,t1,t0", "t0,s1,t0", "t1,s0", "t2,t3,t4,s0", "t3,s2", "t4,s3"} {
 		g.Emit("rw", "0", "10,20,30,40", sc)
 		g.Emit("rw", "1", "10,20,30,40", sc)
 	}
